@@ -71,6 +71,11 @@ func ReadMultipartForm(r io.Reader, boundary string, size, maxInMemoryFileSize i
 	if err != nil {
 		return nil, fmt.Errorf("cannot read multipart/form-data body: %s", err)
 	}
+	// Whatever follows the closing boundary (the epilogue) is part of the body
+	// too: leave nothing of it behind for the next reader of r.
+	if _, err = io.Copy(io.Discard, lr); err != nil {
+		return nil, fmt.Errorf("cannot read multipart/form-data body: %s", err)
+	}
 	return f, nil
 }
 
